@@ -428,6 +428,32 @@ def run(tier, seed, replay=None):
         except Exception as e:  # noqa
             R.notes.append(f"statement coverage run failed: {type(e).__name__}: {e}")
     phase("statement_coverage")
+    if not replay:
+        # a large INTERPRETED batch (NUMBA_DISABLE_JIT=1, no tracing: ~2 ms per call) of the Nesterov loops on flat-ellipsoid
+        # primitive pairs: out-of-bounds stores / index errors of the jitted loops are only observable when interpreted
+        try:
+            icases = []
+            for i in range(1500 if tier == "quick" else 12000):
+                a, b, meta = nb.flat_ellipsoid_prim_pair(R.rng)
+                icases.append(dict(c1=a, c2=b, meta=meta,
+                                   ops=[dict(fn="nesterov_prim_full", kw=dict(use_nesterov_acceleration=True), timeout=60),
+                                        dict(fn="nesterov_full", kw=dict(use_nesterov_acceleration=True), timeout=60)]))
+            ires = nb.run_cases(PID, icases, tag="interp", jit=False, per_worker_min=100)
+            nbad = 0
+            for c, rr in zip(icases, ires):
+                for op, r in zip(c["ops"], rr):
+                    key = r["fn"] + "+acc"
+                    if r.get("exc") == "TIMEOUT" or str(r.get("exc", "")).startswith("PROCESS-"):
+                        continue
+                    if "exc" in r or r.get("nonfinite"):
+                        nbad += 1
+                        what = f"raised {r['exc']}: {r.get('exc_msg', '')}" if "exc" in r else f"non-finite outputs: {r['nonfinite']}"
+                        R.failure(f"{key} INTERPRETED (NUMBA_DISABLE_JIT=1) {what}",
+                                  dict(c1=c["c1"], c2=c["c2"], meta=c["meta"], jit=False, op=op), site=key)
+            R.cov["interpreted_batch"] = dict(pairs=len(icases), calls=2 * len(icases), policy_failures=nbad)
+        except Exception as e:  # noqa
+            R.notes.append(f"interpreted batch failed: {type(e).__name__}: {e}")
+        phase("interpreted_batch")
     R.cov["distinct_nontrivial"] = len(distinct)
     R.cov["entry_point_calls"] = calls_total
     R.cov["max_support_evaluations_per_entry_point"] = maxcalls
